@@ -273,7 +273,10 @@ def _wrap(name, kid, argf):
 
     def f(self, reply, *a):
         s = self._script
-        arg, ps = argf(*a)
+        try:
+            arg, ps = argf(*a)
+        except Exception:        # called with arguments no protocol path gives it (e.g. as a "custom command")
+            arg, ps = repr(a)[:80].encode('latin1', 'replace'), ()
         try:
             orig(self, reply, *a)
         except BaseException:
@@ -754,6 +757,8 @@ def alphabet(cfg, reduced=False):
               b'RCPT TO:<q@x.example> NOTIFY=NEVER', b'RSET', b'RSET x', b'NOOP', b'NOOP x', b'QUIT', b'QUIT x', b'STARTTLS x',
               b'FOO', b'FOO bar', b'', b'123 x', b'MAIL1 FROM:<s@x.example>', b' NOOP', b'HAVE_DATA x', b'CLOSE']:
         add(item(l))
+    for l in COLLISIONS_CORE:          # unknown verbs spelled like the library's internal callback names
+        add(item(l))
     add(item(b'STARTTLS', tls=1, name='STARTTLS/ok'))
     add(item(b'STARTTLS', tls=0, name='STARTTLS/handshake-fails'))
     # au = (5, x): the mechanism is one of slimta.smtp.auth.insecure_mechanisms (PLAIN, LOGIN): 504 on a
@@ -771,6 +776,72 @@ def alphabet(cfg, reduced=False):
                 'DATA/queued=421', 'RSET', 'QUIT', 'STARTTLS/ok', 'AUTH-PLAIN-initial/keep', 'MAIL FROM:<s@x.example> SIZE=99999', 'FOO'}
         A = [a for a in A if a['name'] in keep]
     return A
+
+
+def internal_names():
+    """the names a verb must never reach: every public/handler method of the handlers object and of Server
+    that is not itself an SMTP command, plus the `_command_` suffixes that are not commands"""
+    names = set(['HAVE_DATA', 'BANNER_', 'TLSHANDSHAKE', 'TLSHANDSHAKE2', 'CLOSE', 'custom'])
+    for cls in (SmtpSession, Server):
+        for n in dir(cls):
+            if n.startswith('__'):
+                continue
+            if n.startswith('_command_'):
+                n = n[len('_command_'):]
+            if n.upper().encode() in KNOWN:
+                continue
+            if callable(getattr(cls, n, None)) or n.isupper():
+                names.add(n)
+    return sorted(names)
+
+
+def collision_verbs(names):
+    """plausible spellings of those names as a command verb: '_' written as '-', '.', '' or kept, case changes,
+    a digit appended, with and without an argument"""
+    out = []
+    for n in names:
+        forms = set()
+        for sep in ('-', '_', '.', ''):
+            base = n.strip('_').replace('_', sep) + (sep if n.endswith('_') else '')
+            if n.startswith('_'):
+                base = sep + base
+            for f in (base.upper(), base.lower(), base.capitalize()):
+                forms.add(f)
+        forms.add(n)
+        forms.add(n.upper() + '2')
+        forms.add(n.upper().replace('_', '-') + '-')
+        for f in sorted(forms):
+            if f and f.upper().encode() not in KNOWN:
+                out.append(f.encode())
+                out.append(f.encode() + b' foo')
+    seen, uniq = set(), []
+    for l in out:
+        if l not in seen:
+            seen.add(l)
+            uniq.append(l)
+    return uniq
+
+
+COLLISIONS_CORE = [b'HAVE-DATA foo', b'HAVE-DATA', b'have-data x', b'HAVE.DATA foo', b'BANNER-', b'BANNER- x', b'banner_', b'BANNER',
+                   b'TLSHANDSHAKE', b'TLSHANDSHAKE x', b'TLSHANDSHAKE2', b'CLOSE x', b'custom', b'CUSTOM x', b'-command-custom x', b'HANDOFF x']
+
+
+def run_collisions(ctx, cfgs):
+    """every spelling variant of every internal callback/method name, at a handful of session states of the
+    richest configurations: an unknown verb is answered with an error reply and reaches no callback"""
+    verbs = collision_verbs(internal_names())
+    cases = []
+    for cfg in ((cfgs[0],) if ctx.quick else (cfgs[0], cfgs[8])):
+        A0 = {a['name']: a for a in alphabet(cfg)}
+        prefixes = [(KEEP, []), (550, []), (KEEP, [A0['EHLO/keep']]), (KEEP, [A0['EHLO/keep'], A0['MAIL/keep']]),
+                    (KEEP, [A0['EHLO/keep'], A0['MAIL/keep'], A0['RCPT/keep']])]
+        if cfg['context'] and not cfg['imm']:
+            prefixes.append((KEEP, [A0['EHLO/keep'], A0['STARTTLS/ok']]))
+        for vb, pre in prefixes:
+            for l in verbs:
+                cases.append(dict(cfg=cfg, vb=vb, items=pre + [item(l), A0['NOOP']]))
+    check_cases(ctx, cases, 'internal-name-collisions', lambda c, i, m: notes(ctx, c, i))
+    ctx.count('collision-verbs', len(verbs))
 
 
 def configs(ctx):
@@ -883,7 +954,7 @@ def run(ctx):
         'prefix found and then every symbol (command class x validator verdict {keep,450,550,421,221,raise Exception,raise gevent.Timeout,raise GreenletExit} x malformed variants x queue results x '
         'AUTH/TLS outcomes, ~100 symbols) is issued; plus every sequence up to the stated depth over a 16-symbol alphabet; plus random depth-12 '
         'sequences over the full alphabet; plus command lines of 500..70000 bytes (NOOP/EHLO/MAIL/RCPT/unknown verbs, tails spelling RSET/QUIT/DATA/MAIL behind a piece boundary) '
-        'handed out by the socket in recv()-sized pieces, 1460-byte segments and whole; compared: reply codes per command, ordered handler-callback trace with arguments/params/resulting code, '
+        'handed out by the socket in recv()-sized pieces, 1460-byte segments and whole; plus unknown verbs spelled like the internal callback/method names of the library (HAVE_DATA, BANNER_, TLSHANDSHAKE(2), CLOSE, custom, every non-command method of SmtpSession/Server; underscore written as hyphen, dot, nothing; case changes, digits; with and without argument): 16 of them at every state of the BFS, all of them at six session states; compared: reply codes per command, ordered handler-callback trace with arguments/params/resulting code, '
         'handoff events, how the session ended, final server+edge state; non-trivial = a case whose commands produced a callback or an error reply')
     ctx.extra['trusted_base'] = [
         'fake socket / fake TLS context (slimta.smtp.io.SSLSocket pointed at the fake TLS socket class), PtrLookup stub, recorder queue; '
@@ -942,6 +1013,7 @@ def run(ctx):
             len(bfs_cfgs), tot_states, tot_trans, len(cases), depth, len(red),
             ' and of length %d over a %d-symbol core alphabet' % (depth + 1, ncore) if ncore else ''))
     run_long_lines(ctx, cfgs[0])
+    run_collisions(ctx, cfgs)
     # random long sequences
     rng = ctx.rng
     n = 500 if ctx.quick else 8000
